@@ -430,7 +430,7 @@ pub fn run(args: &Args) -> i32 {
         }
     }
     let seed = args.seed;
-    let deadline = std::time::Instant::now() + std::time::Duration::from_secs(if thorough { 1500 } else { 35 });
+    let deadline = std::time::Instant::now() + std::time::Duration::from_secs(if thorough { 1500 } else { 55 });
     let accs = explore::par::run(&cases, Acc::new, |_, case, acc| {
         let caps = Caps { deadline: Some(deadline), max_executions: 200_000, ..Caps::default() };
         let mut viol = ViolSet::new();
